@@ -19,13 +19,16 @@ Both derive from `VirtualTimeError` (an `Exception`; they are raised out of `run
     try:
         result = loop.run_until_complete(main())
     finally:
-        loop.shutdown()          # cancels what is left, closes the loop
+        loop.shutdown()          # cancels what is left, closes the loop (run_cancelled=False after a watchdog)
 
 `FakeDateTime`/`make_fake_datetime(clock)` give the Colang 2 interpreter (`statemachine.datetime`,
 `flows.datetime`) a `datetime` class whose `now()` is `BASE + clock()` seconds.
 """
 import asyncio
+import contextlib
 import datetime as _dt
+import signal
+import threading
 
 
 class VirtualTimeError(Exception):
@@ -40,6 +43,10 @@ class StepLimit(VirtualTimeError):
     """The loop ran more than `max_steps` iterations (tasks spin without making progress)."""
 
 
+class Aborted(BaseException):
+    """Raised out of the loop after a relayed SIGALRM whose original handler did not raise."""
+
+
 class VirtualLoop(asyncio.SelectorEventLoop):
     def __init__(self, start=0.0, max_steps=1_000_000, io_grace=0.0):
         super().__init__()
@@ -47,6 +54,7 @@ class VirtualLoop(asyncio.SelectorEventLoop):
         self._vsteps = 0
         self._vmax_steps = max_steps
         self._vio_grace = io_grace
+        self._vabort = None
         self._real_select = self._selector.select
         self._selector.select = self._virtual_select
 
@@ -63,7 +71,40 @@ class VirtualLoop(asyncio.SelectorEventLoop):
         if seconds > 0:
             self._vtime += seconds
 
+    @contextlib.contextmanager
+    def alarm_relay(self, interval=0.05):
+        """Makes a SIGALRM watchdog effective against tasks that spin *without yielding*.
+
+        asyncio stores a BaseException raised inside a task step in that task and keeps running, so a one-shot
+        alarm only kills the first spinning task and the next one spins forever.  While this context is active
+        the alarm is re-armed every `interval` seconds (each firing breaks the task that is spinning, through the
+        watchdog's own handler) until the loop itself gets control again and re-raises out of run_until_complete.
+        """
+        old = signal.getsignal(signal.SIGALRM)
+        if not callable(old) or threading.current_thread() is not threading.main_thread():
+            yield
+            return
+
+        def relay(signum, frame):
+            self._vabort = (old, signum)
+            if self.is_running():
+                signal.setitimer(signal.ITIMER_REAL, interval)
+            old(signum, frame)
+
+        signal.signal(signal.SIGALRM, relay)
+        try:
+            yield
+        finally:
+            if self._vabort:
+                signal.setitimer(signal.ITIMER_REAL, 0)
+            signal.signal(signal.SIGALRM, old)
+
     def _virtual_select(self, timeout=None):
+        if self._vabort:
+            old, signum = self._vabort
+            signal.setitimer(signal.ITIMER_REAL, 0)
+            old(signum, None)
+            raise Aborted()
         self._vsteps += 1
         if self._vmax_steps and self._vsteps > self._vmax_steps:
             raise StepLimit(f"more than {self._vmax_steps} event-loop iterations at virtual time {self._vtime!r}")
@@ -90,15 +131,19 @@ class VirtualLoop(asyncio.SelectorEventLoop):
     def pending_tasks(self):
         return [t for t in asyncio.all_tasks(self) if not t.done()]
 
-    def shutdown(self):
-        """Cancel whatever is left, give cancelled tasks a chance to unwind, close the loop."""
+    def shutdown(self, run_cancelled=True):
+        """Cancel whatever is left, give cancelled tasks a chance to unwind, close the loop.
+
+        Pass run_cancelled=False after a watchdog (BaseException) interrupted the run: a task that spins
+        without ever yielding cannot receive its cancellation and would hang the clean-up.
+        """
         if self.is_closed():
             return
         try:
             tasks = self.pending_tasks()
             for t in tasks:
                 t.cancel()
-            if tasks:
+            if tasks and run_cancelled:
                 self._vsteps, self._vmax_steps = 0, 10_000
                 try:
                     self.run_until_complete(asyncio.gather(*tasks, return_exceptions=True))
@@ -115,11 +160,16 @@ class VirtualLoop(asyncio.SelectorEventLoop):
 def run(coro, max_steps=1_000_000, start=0.0):
     """Runs `coro` on a fresh VirtualLoop; returns (result, virtual end time, loop iterations)."""
     loop = VirtualLoop(start=start, max_steps=max_steps)
+    clean = False
     try:
         result = loop.run_until_complete(coro)
+        clean = True
         return result, loop.time(), loop.steps
+    except Exception:
+        clean = True
+        raise
     finally:
-        loop.shutdown()
+        loop.shutdown(run_cancelled=clean)
 
 
 # ---------------------------------------------------------------------------------------------
